@@ -67,6 +67,16 @@ Theorem C10_stream_reads : forall doc chunks sz fuel,
   end.
 Proof. exact stream_decode_armor. Qed.
 
+(* ... with the number of Reads the runner allows (3 per document byte: Text() at most triples a token) *)
+Theorem C10_stream_reads_run : forall doc chunks sz,
+  List.concat chunks = doc -> (forall j, (1 <= sz j)%nat) -> no_ipad (body_of doc) = true ->
+  let r := armor_stream_decode chunks sz (fuel_for doc) in
+  match armor_decode doc with
+  | DOk d => s_data r = d /\ s_end r = Some REOF
+  | DErr e => s_end r = Some (RErr e) /\ prefix (s_data r) (fst (b64_decode_seq (body_of doc)))
+  end.
+Proof. exact stream_decode_armor_run. Qed.
+
 (* non-vacuity: a document with an error after data, delivered byte by byte and read with buffers of
    1, 2, 3, 1, 2, 3, ... bytes; and the hypotheses hold for it *)
 Example C10_stream_reads_example :
@@ -111,6 +121,12 @@ Theorem C10_total_and_released : forall doc chunks sz fuel,
   s_end (armor_stream_decode chunks sz fuel) <> None /\
   sp_stuck (s_prod (armor_stream_decode chunks sz fuel)) = false.
 Proof. exact armor_total. Qed.
+
+Theorem C10_total_and_released_run : forall doc chunks sz,
+  List.concat chunks = doc -> (forall j, (1 <= sz j)%nat) ->
+  s_end (armor_stream_decode chunks sz (fuel_for doc)) <> None /\
+  sp_stuck (s_prod (armor_stream_decode chunks sz (fuel_for doc))) = false.
+Proof. exact armor_total_run. Qed.
 
 (* the release alone, for any tokenizer and any number of Reads: once an end has been reported (or
    NewArmorDecoder failed) the producer is not blocked in a Write *)
